@@ -2,6 +2,7 @@ import DoltVerif.Model.JsonDoc
 import DoltVerif.Model.JsonDocIndexed
 import DoltVerif.Model.JsonDocMerge
 import DoltVerif.Lemmas.JsonDocRoundTrip
+import DoltVerif.Lemmas.JsonDocScan
 /-!
 C17 — Stored JSON documents behave like in-memory JSON.  Property theorems.  Statements are about
 `Model/JsonDoc*.lean`, tied to the Go sources (dolt and the go-mysql-server module it builds against)
@@ -578,5 +579,139 @@ theorem merge_right_unchanged (b l : JsonVal) (hb : kindOf b = .obj) (hl : kindO
 example : merge3 (.obj [([0x61], .lit [0x31])]) (.obj [([0x61], .lit [0x32])]) (.obj [([0x61], .lit [0x31])]) =
     .merged [0x7b, 0x22, 0x61, 0x22, 0x3a, 0x32, 0x7d] := by
   rw [merge_right_unchanged _ _ rfl rfl]; rfl
+
+/-! ## the byte-level scanner on single-chunk stored text: flat-prefixed objects -/
+
+/-- members before `K`: scalar values the scanner passes in one step, keys it reads back exactly, in
+ascending byte order below `K`, and (for the reference side) keys that are their own Go strings -/
+def PlainPre (K : Bytes) (pre : List (Bytes × Bytes)) : Prop :=
+  FlatPre K pre ∧ ∀ ks ∈ pre, rawKey ks.1 = ks.1
+
+/-- **`scan_locates`** -/
+theorem scan_locates (pre : List (Bytes × Bytes)) (K sK : Bytes) (post : List (Bytes × JsonVal))
+    (hpre : FlatPre K pre) (hK : keyScans K) :
+    ∃ done', advanceTo (mkScanner (serialize (.obj (membersFrom pre K sK post)))) (keyLoc .startOfValue K) false =
+        .ok (true, atValue done' K sK post []) ∧
+      done'.reverse = 0x7b :: (preText pre ++ (0x22 :: K ++ [0x22, 0x3a])) :=
+  scan_locates_flat pre K sK post hpre hK
+
+theorem objSet_members (K : Bytes) (old nv : JsonVal) (post : List (Bytes × JsonVal)) (hK : rawKey K = K) :
+    ∀ (pre : List (Bytes × Bytes)), (∀ ks ∈ pre, rawKey ks.1 = ks.1 ∧ bytesCmp ks.1 K = .lt) →
+      objSet (pre.map mem ++ (K, old) :: post) K nv = pre.map mem ++ (K, nv) :: post
+  | [], _ => by simp [objSet, hK, (bytesCmp_eq_iff K K).mpr rfl]
+  | (k, s) :: pre', h => by
+    obtain ⟨h1, h2⟩ := h (k, s) (by simp)
+    have ih := objSet_members K old nv post hK pre' (fun x hx => h x (by simp [hx]))
+    simp only [List.map_cons, List.cons_append, mem, objSet, h1, h2, ih]
+
+theorem objGet_members (K : Bytes) (old : JsonVal) (post : List (Bytes × JsonVal)) (hK : rawKey K = K) :
+    ∀ (pre : List (Bytes × Bytes)), (∀ ks ∈ pre, rawKey ks.1 = ks.1 ∧ bytesCmp ks.1 K = .lt) →
+      objGet (pre.map mem ++ (K, old) :: post) K = some old
+  | [], _ => by simp [objGet, hK]
+  | (k, s) :: pre', h => by
+    obtain ⟨h1, h2⟩ := h (k, s) (by simp)
+    have hne : k ≠ K := fun e => by rw [e, (bytesCmp_eq_iff K K).mpr rfl] at h2; cases h2
+    have ih := objGet_members K old post hK pre' (fun x hx => h x (by simp [hx]))
+    simp [mem, objGet, h1, hne, ih]
+
+theorem serialize_members (pre : List (Bytes × Bytes)) (K : Bytes) (x : JsonVal) (post : List (Bytes × JsonVal)) :
+    serialize (.obj (pre.map mem ++ (K, x) :: post)) =
+      0x7b :: (preText pre ++ (0x22 :: K ++ [0x22, 0x3a])) ++ serialize x ++ afterVal post [] := by
+  have := ser_split K x post [] pre
+  simp only [serialize]
+  have e : serObj (pre.map mem ++ (K, x) :: post) ++ [0x7d] =
+      preText pre ++ (0x22 :: K ++ 0x22 :: 0x3a :: (serialize x ++ afterVal post [])) := this
+  simp [e]
+
+/-- **`indexed_refines_single_chunk`** — splice = structural edit for LOOKUP, SET and REPLACE of an
+existing member `K` of a stored object, single chunk.  Hypotheses (each one a point where the
+correspondence showed the refinement to fail otherwise): the members before `K` are scalars with keys
+the scanner reads back unescaped, in ascending byte order (`FlatPre`), keys are their own Go strings
+(`rawKey k = k`: no escapes), `K` is a plain non-empty key other than `*` / `**`, and the current value
+of `K` is a scalar the scanner passes in one step.  The members after `K` are arbitrary. -/
+theorem indexed_refines_single_chunk (pre : List (Bytes × Bytes)) (K sK : Bytes) (post : List (Bytes × JsonVal))
+    (nv : JsonVal) (hpre : PlainPre K pre) (hK : keyScans K) (hKraw : rawKey K = K) (hs : valScans sK)
+    (hne : K ≠ [] ∧ K ≠ [0x2a] ∧ K ≠ [0x2a, 0x2a]) :
+    let d := JsonVal.obj (membersFrom pre K sK post)
+    (indexedOp .set [.key K] (serialize d) (serialize nv) =
+        (match refOp .set [.key K] d nv with | .ok (r, ch) => .ok (serialize r, ch) | .error e => .error (.ref e))) ∧
+    (indexedOp .replace [.key K] (serialize d) (serialize nv) =
+        (match refOp .replace [.key K] d nv with | .ok (r, ch) => .ok (serialize r, ch) | .error e => .error (.ref e))) ∧
+    (indexedLookup [.key K] (serialize d) = .ok ((refLookup [.key K] d).map serialize)) := by
+  intro d
+  obtain ⟨hflat, hraw⟩ := hpre
+  have hboth : ∀ ks ∈ pre, rawKey ks.1 = ks.1 ∧ bytesCmp ks.1 K = .lt := fun ks h => ⟨hraw ks h, (hflat ks h).2.2⟩
+  have hloc : legsToLoc [.key K] rootLoc = .loc (keyLoc .startOfValue K) := by
+    simp [legsToLoc, hne.1, hne.2.1, hne.2.2, keyLoc, rootLoc, Loc.push]
+  have hget : objGet (membersFrom pre K sK post) K = some (.lit sK) := objGet_members K _ post hKraw pre hboth
+  have hset : objSet (membersFrom pre K sK post) K nv = pre.map mem ++ (K, nv) :: post :=
+    objSet_members K _ nv post hKraw pre hboth
+  obtain ⟨hrep, hs'⟩ := iReplace_flat pre K sK post (serialize nv) hflat hK hs
+  have hser := serialize_members pre K nv post
+  refine ⟨?_, ?_, ?_⟩
+  · have href : refOp .set [.key K] d nv = .ok (.obj (pre.map mem ++ (K, nv) :: post), true) := by
+      simp [refOp, walk, d, hset]
+    simp only [indexedOp, hloc, href, hser]
+    simpa using hs'
+  · have href : refOp .replace [.key K] d nv = .ok (.obj (pre.map mem ++ (K, nv) :: post), true) := by
+      simp [refOp, walk, d, hget, hset]
+    simp only [indexedOp, hloc, href, hser]
+    simpa using hrep
+  · have href : refLookup [.key K] d = some (.lit sK) := by simp [refLookup, d, hget]
+    simp only [indexedLookup, hloc, href]
+    have := iLookup_flat pre K sK post hflat hK hs
+    simpa [serialize, d] using this
+
+
+/-- the hypotheses are met by ordinary members: a key without `"` / `\` is read back exactly … -/
+theorem keyScans_plain : ∀ (k : Bytes), (∀ c ∈ k, c ≠ 0x22 ∧ c ≠ 0x5c) → keyScans k
+  | [], _ => ⟨fun r => by simp [skipKey], rfl⟩
+  | c :: t, h => by
+    have hc := h c (by simp)
+    obtain ⟨ih1, ih2⟩ := keyScans_plain t (fun x hx => h x (by simp [hx]))
+    refine ⟨fun r => ?_, ?_⟩
+    · have e : (c :: t) ++ 0x22 :: r = c :: (t ++ 0x22 :: r) := rfl
+      rw [e, skipKey]
+      · simp [hc.2, ih1 r]
+      all_goals first
+        | (intro e'; exact hc.1 e')
+        | (intro e'; exact hc.2 e')
+        | (intro c' t' e' _; exact hc.2 e')
+        | (intro c' t' e'; simp only [List.cons.injEq] at e'; exact hc.2 e'.1)
+        | (intro t' e'; simp only [List.cons.injEq] at e'; exact hc.1 e'.1)
+        | (intro c' e'; exact hc.2 e')
+    · cases t with
+      | nil => simp [unescapeKey]
+      | cons c2 t2 =>
+        rw [unescapeKey]
+        · rw [ih2]
+        all_goals first
+          | (intro e' _; exact hc.2 e')
+          | (intro e'; exact hc.2 e')
+          | (intro t' e' _; exact hc.2 e')
+          | (intro t' e'; simp only [List.cons.injEq] at e'; exact hc.2 e'.1)
+
+/-- … and a number / `true` / `false` / `null` token is passed in one step -/
+theorem valScans_token (c : UInt8) (t : Bytes) (h1 : c ≠ 0x22) (h2 : c ≠ 0x5b) (h3 : c ≠ 0x7b)
+    (ht : ∀ x ∈ t, isStop x = false) : valScans (c :: t) := by
+  intro done r p hr hp
+  have tw : (t ++ r).takeWhile (fun x => !isStop x) = t ∧ (t ++ r).dropWhile (fun x => !isStop x) = r := by
+    induction t with
+    | nil =>
+      rcases hr with rfl | ⟨c', t', rfl, hc'⟩
+      · simp
+      · simp [List.takeWhile_cons, List.dropWhile_cons, hc']
+    | cons a t ih =>
+      have ha := ht a (by simp)
+      have := ih (fun x hx => ht x (by simp [hx]))
+      simp [List.takeWhile_cons, List.dropWhile_cons, ha, this.1, this.2]
+  have e : (c :: t) ++ r = c :: (t ++ r) := rfl
+  simp only [e, Scanner.advance, hp, h1, h2, h3, if_false, Scanner.pass, tw.1, tw.2]
+
+example : PlainPre [0x62] [([0x61], [0x31])] ∧ keyScans [0x62] ∧ valScans [0x32] := by
+  refine ⟨⟨?_, ?_⟩, keyScans_plain _ (by decide), valScans_token 0x32 [] (by decide) (by decide) (by decide) (by simp)⟩
+  · intro ks h; simp at h; subst h
+    exact ⟨keyScans_plain _ (by decide), valScans_token 0x31 [] (by decide) (by decide) (by decide) (by simp), by decide⟩
+  · intro ks h; simp at h; subst h; rfl
 
 end DoltVerif.C17
